@@ -1676,7 +1676,7 @@ def swarm_config(seed, faults):
         "window_p": rnd.choice((0.0, 0.3, 0.6)),
         "max_rank": rnd.choice((1, 2, 3, 4)),
         "p_one": rnd.choice((0.2, 0.4, 0.7)),
-        "layouts": rnd.choice((["C"], ["C"], ["C"], ["C", "T"], list(gen.LAYOUTS))),
+        "layouts": rnd.choice((["C"], ["C"], ["C"], ["C", "T"], list(gen.LAYOUTS), ["C", "F", "moveaxis", "moveaxis_r"])),
         "cplx_p": rnd.choice((0.0, 0.0, 0.3, 1.0)),
         "length": rnd.choice((3, 5, 8, 12, 20, 40, 70) if deep else (3, 5, 8, 12, 20, 40)),
         "groups": groups,
@@ -1843,6 +1843,10 @@ def generate_and_run(seed, faults, keep_events=False):
             rec.setdefault("sub_seed", fresh)
             if rec["op"] != "new":
                 fl = _faults(rnd, cfg)
+                if cfg["fault_rate"] and "F-gesdd" in cfg["fault_kinds"] and rec["op"] == "read" and \
+                        rec["args"].get("what") == "norm2" and rnd.random() < 0.5:
+                    # norm() sweeps a private copy: only the retry path could ever write into the caller's cores
+                    fl = [{"kind": "F-gesdd", "nth": rnd.choice((1, 1, 2))}]
                 if fl and "faults" not in rec:
                     rec["faults"] = fl
                 if cfg.get("clock_jumps"):
